@@ -4,6 +4,8 @@
 //! under varying `ServerState` limits.
 #[path = "../util.rs"]
 mod util;
+#[path = "../subs2.rs"]
+mod subs2;
 use util::*;
 use opcua::server::prelude::*;
 use opcua::server::services::subscription::verif_revise_subscription_values;
@@ -174,6 +176,33 @@ impl Property for P {
                     Ok(Err(_)) => { out.push(-3); out.push(-3); }
                     Err(_) => { out.push(-2); out.push(-2); }
                 }
+            }
+        }
+        drop(st);
+        // what the ModifySubscription service answers for the same request on an existing subscription (created with
+        // other values): the real service on a real session, under the same limits
+        {
+            use opcua::core::supported_message::SupportedMessage;
+            use opcua::server::services::subscription::verif as svc;
+            let wst = subs2::World::server_state_handle();
+            {
+                let mut s = wst.write();
+                s.min_publishing_interval_ms = c.min_pub; s.min_sampling_interval_ms = c.min_samp; s.default_keep_alive_count = c.def_ka;
+                s.max_keep_alive_count = c.max_ka; s.max_lifetime_count = c.max_lt; s.max_monitored_item_queue_size = c.max_q;
+            }
+            let r = guarded(|| {
+                let mut w = subs2::World::new(1);
+                w.apply(0, &subs2::Op::CreateSub { prio: 0, interval: 500, kac: 7, life: 21, enabled: true });
+                let id = *w.live_subs().first().unwrap_or(&1);
+                let request = ModifySubscriptionRequest { request_header: RequestHeader::dummy(), subscription_id: id as u32,
+                    requested_publishing_interval: c.r_pub, requested_lifetime_count: c.r_lt, requested_max_keep_alive_count: c.r_ka,
+                    max_notifications_per_publish: 0, priority: 0 };
+                svc::modify_subscription(wst.clone(), w.session_handle(), &request)
+            });
+            match r {
+                Ok(SupportedMessage::ModifySubscriptionResponse(m)) => { out.push(canon(m.revised_publishing_interval)); out.push(m.revised_max_keep_alive_count as i128); out.push(m.revised_lifetime_count as i128); }
+                Ok(_) => out.push(-3),
+                Err(_) => out.push(-2),
             }
         }
         let valid = !c.min_pub.is_nan() && !c.min_samp.is_nan() && 1 <= c.def_ka && c.def_ka <= c.max_ka
